@@ -27,6 +27,8 @@ dst = os.path.join(V, "seeded", mid)
 os.makedirs(dst, exist_ok=True)
 for f in ("patch.diff", "demo.cpp", "README.md"):
     shutil.copy(os.path.join(src, f), os.path.join(dst, f))
+if os.path.exists(os.path.join(src, "demo.author.cpp")):  # demo whose hard-coded scratch directory was replaced by "./"
+    shutil.copy(os.path.join(src, "demo.author.cpp"), os.path.join(dst, "demo.author.cpp"))
 # the author's patch was written against an older HEAD: keep it, and store the same change expressed against the HEAD it
 # was confirmed on as patch.diff, so that `git -C /repo apply seeded/<id>/patch.diff` works
 reb = os.path.join(src, "patch.rebased.diff")
